@@ -73,9 +73,13 @@ func (m *Model) PullMeterReadings(ctx context.Context, opts ...resource.ReadOpti
 		defer close(send)
 		for change := range recv {
 			value := change.Value.(*traits.MeterReading)
-			send <- PullMeterReadingChange{
+			select {
+			case <-ctx.Done():
+				return // the subscriber is gone, nobody will take the change
+			case send <- PullMeterReadingChange{
 				Value:      value,
 				ChangeTime: change.ChangeTime,
+			}:
 			}
 		}
 	}()
